@@ -116,44 +116,6 @@ def _witnesses(binary, prop):
     return res, (rc, err[-500:])
 
 
-def _skeleton_tie(ctx):
-    """Static tie: the syntactic skeleton of the modelled functions in the current tree must be the one the model was
-    written against (engines/core_skeleton.json).  Returns (obligation dict, failures)."""
-    import difflib
-    prop = ctx.prop
-    exp_path = Path(__file__).parent / "core_skeleton.json"
-    name = "source skeleton (ruextract-core) of the modelled functions = the skeleton the model lean/core was written against"
-    ok, binary, log = vlib.go_build("ruextract-core")
-    if not ok:
-        return {"name": name, "ok": False}, [vlib.failure("tie", f"{prop}/tie/source-skeleton/extractor-build",
-                                                          "ruextract-core does not build: " + log[-800:], {"log": log[-3000:]}, False)]
-    rc, out, err = vlib.run([str(binary), "--repo", str(vlib.REPO)], timeout=120)
-    if rc != 0:
-        return {"name": name, "ok": False}, [vlib.failure(
-            "tie", f"{prop}/tie/source-skeleton/extractor-rejects-source",
-            "ruextract-core cannot parse the modelled files of the current tree: " + err[-800:], {"stderr": err[-3000:]}, False)]
-    cur = {f["name"]: f for f in json.loads(out)}
-    exp = {f["name"]: f for f in json.loads(exp_path.read_text())["functions"]}
-    fails = []
-    for nm in sorted(set(cur) | set(exp)):
-        a, b = exp.get(nm), cur.get(nm)
-        if a and b and a["sha256"] == b["sha256"]:
-            continue
-        if a is None:
-            what, diff = "new function/declaration in a modelled file", b["tokens"][:40]
-        elif b is None:
-            what, diff = "function/declaration removed from a modelled file", a["tokens"][:40]
-        else:
-            what = "body differs from the one the model mirrors"
-            diff = [l for l in difflib.unified_diff(a["tokens"], b["tokens"], "modelled", "current", lineterm="", n=2)][:60]
-        fails.append(vlib.failure(
-            "tie", f"{prop}/tie/source-skeleton/{nm}",
-            f"{nm}: {what}; the hand-written model lean/core is no longer known to mirror this function (checks, bounds, "
-            "collaborator calls, slice/map operations; renames and log/error texts are ignored):\n" + "\n".join(diff),
-            {"no_longer_checks": "correspondence lean/core <-> " + nm, "function": nm, "what": what, "diff": diff}, False))
-    return {"name": name + f" ({len(exp)} functions/declarations)", "ok": not fails}, fails
-
-
 def run(ctx):
     prop = ctx.prop
     ent = THEOREMS.get(prop, {"modules": [], "theorems": []})
@@ -177,7 +139,7 @@ def run(ctx):
         return vlib.result(lean=lean, failures=failures, extra_obligations=extra, assumptions=ASSUMPTIONS, trusted_base=TRUSTED)
 
     # 0. static tie
-    ob, sk_fails = _skeleton_tie(ctx)
+    ob, sk_fails = vlib.skeleton_tie(prop, "core")
     extra.append(ob)
     failures += sk_fails
     ctx.log(f"skeleton tie: {'ok' if ob['ok'] else [f['signature'] for f in sk_fails]}")
